@@ -14,6 +14,7 @@ import IoosQc.Props.C19
 import IoosQc.Props.C07
 import IoosQc.Props.C18
 import IoosQc.Model.FxParse
+import IoosQc.Model.Creator
 
 open Lean IoosQc IoosQc.Wire
 
@@ -385,6 +386,45 @@ def handleFxParse (j : Json) : D Json := do
                       | some v => Json.mkObj [("value", Json.arr #[toJson v.num, toJson v.den])]
                       | none => Json.mkObj [("error", Json.str "Exception")])])
 
+def ratJson (q : Rat) : Json := Json.arr #[toJson q.num, toJson q.den]
+
+/-- kind = "creator": a time-constant climatology grid, a bounding box and a number of days:
+    the statistics `create_config` must feed to the limit expressions (exact rationals; the
+    variance instead of the standard deviation), and the span of two expression strings parsed by
+    the grammar model, given the square root the harness observed. -/
+def handleCreator (j : Json) : D Json := do
+  let cells ← field j "cells" >>= asList (fun c => do
+    pure (⟨← field c "lat" >>= asRat, ← field c "lon" >>= asRat, ← getOpt asRat c "value"⟩ : GridCell))
+  let bb ← field j "bbox" >>= asList asRat
+  let d ← field j "days" >>= asNat
+  let b : BBox ← (match bb with
+    | [x0, y0, x1, y1] => pure ⟨x0, y0, x1, y1⟩
+    | _ => throw "bbox: 4 numbers")
+  let vals := insideCells b cells
+  let std ← getOpt asRat j "std"
+  let spans ← (match optField j "exprs" with
+    | some ex => asList (fun p => match p with
+        | .arr #[lo, hi] => do
+            let lo ← asStr lo
+            let hi ← asStr hi
+            pure (match parseString lo, parseString hi, gridStats (pooled d vals), std with
+              | some el, some eh, some g, some s =>
+                (match spanOf (g.toStats s) el eh with
+                 | some (a, c) => Json.arr #[ratJson a, ratJson c]
+                 | none => Json.null)
+              | _, _, _, _ => Json.null)
+        | _ => throw "exprs: [lo, hi] strings") ex
+    | none => pure [])
+  pure (Json.mkObj
+    [ ("n_inside", toJson vals.length),
+      ("stats", match gridStats (pooled d vals) with
+        | some g => Json.mkObj [("min", ratJson g.min), ("max", ratJson g.max), ("mean", ratJson g.mean), ("var", ratJson g.var)]
+        | none => Json.null),
+      ("stats_one_day", match gridStats vals with
+        | some g => Json.mkObj [("min", ratJson g.min), ("max", ratJson g.max), ("mean", ratJson g.mean), ("var", ratJson g.var)]
+        | none => Json.null),
+      ("spans", Json.arr spans.toArray) ])
+
 def dispatch (kind : String) (j : Json) : D Json :=
   match kind with
   | "test" => handleTest j
@@ -393,6 +433,7 @@ def dispatch (kind : String) (j : Json) : D Json :=
   | "fx_eval" => handleFxEval j
   | "fx_valid" => handleFxValid j
   | "fx_parse" => handleFxParse j
+  | "creator" => handleCreator j
   | "window" => handleWindow j
   | "c16" => handleC16 j
   | "c17" => handleC17 j
